@@ -324,8 +324,9 @@ def work(task):
                 code = rnd.randrange(1, 1 << (n * (n - 1) // 2))
                 rows = lcorbit.adj_rows(code, n)
                 g = Graph(np.array([[(rows[a] >> b) & 1 for b in range(n)] for a in range(n)], dtype=np.int8))
+                same_obj = Stabilizer(g) if i % 4 == 1 else None     # one Stabilizer object kept across the caller's edits of its graph
                 for step in range(4):
-                    judge_set(p, lcorbit.graph_gens(lcorbit.code_of(rows, n), n), n, [conn], stab_obj=Stabilizer(g))
+                    judge_set(p, lcorbit.graph_gens(lcorbit.code_of(rows, n), n), n, [conn], stab_obj=same_obj if same_obj is not None else Stabilizer(g))
                     if rnd.getrandbits(1):
                         v = rnd.randrange(n)
                         g.local_complementation(v)
